@@ -1,6 +1,7 @@
 (* C04 - transposition is exact: modulation, octaves and their composition laws.
    Statements only; proofs in Proofs/TonProofs.v (the rendering-level statement is in C03's files). *)
-From ML Require Import Model.Types gen.Tables Model.Pitch Model.Ton Spec.PitchSpec Proofs.PitchProofs Proofs.TonProofs.
+From ML Require Import Model.Types gen.Tables Model.Pitch Model.Rel Model.Ton Model.Render Spec.PitchSpec Spec.RenderSpec.
+From ML Require Import Proofs.PitchProofs Proofs.TonProofs Proofs.RenderProofs Proofs.RenderTonProofs.
 Open Scope Z_scope.
 
 (* modulating by a tonality that keeps the mode moves every chord-relative pitch
@@ -57,6 +58,23 @@ Proof. intros a b. split; [apply ton_add_sub | apply ton_sub_add]. Qed.
 
 Theorem C04_eq_is_kernel_of_norm : forall a b, ton_eqb a b = true <-> ton_norm a = ton_norm b.
 Proof. exact ton_eqb_spec. Qed.
+
+(* rendering level: modulating a whole score by a tonality t (same mode as every chord) moves the sounding notes
+   of a part made of chord-relative notes (s, h, c, b; rests, continuations) by exactly tdeg t + 12 * toct t and
+   keeps every onset, duration and velocity; parts made of absolute and drum notes are unchanged.
+   (Parts containing relative notes are tied by correspondence and oracle only.) *)
+Theorem C04_modulate_render : forall s track t sl,
+  forallb (fun c => mode_eqb (tmode t) (tmode (cton (rc c)))) s = true ->
+  forallb (item_ok chord_relative) (items s track 0) = true ->
+  sounding_of s track = Some sl ->
+  sounding_of (rscore_map (fun c => chord_mod c t) s) track = Some (map (shift_snote (tdeg t + 12 * toct t)) sl).
+Proof. exact modulate_render. Qed.
+
+Theorem C04_modulate_render_absolute : forall s track t,
+  forallb (fun i => match i with INote c _ _ => (0 <=? celem c) && (celem c <=? 6) | IGap => true end) (items s track 0) = true ->
+  forallb (item_ok chord_free) (items s track 0) = true ->
+  sounding_of (rscore_map (fun c => chord_mod c t) s) track = sounding_of s track.
+Proof. exact modulate_render_absolute. Qed.
 
 Example C04_ex : to_pitch_abs (chord_mod (mkC 4 (bare "65") (mkT 9 MMin (-1)) 2) (mkT 7 MMin 1)) (plain KB 1 0)
                = Some (Some (35 + (7 + 12 * 1))) /\
